@@ -286,7 +286,7 @@ def run_serde(ctx, P, cs):
             viol.append({"tag": "serde_" + prof, "kind": "serde round trip / bounded reservation / error validity fails", "profile": prof,
                          "cases": badl[:10], "classes": [], "replay_cmd": "%s serde" % binp})
     cov = {"evaluations": total, "distinct_nontrivial": total, "traces_validated_against_impl": total,
-           "rule": "6 element sequences (0..2049 elements) x 9 claimed size hints (absent, exact, small, 1024, 1025, 10^5, usize::MAX) x prior contents shorter/equal/longer x two capacities, plus an element error at every position up to 12; serialization compared with the slice's and Vec's JSON; both profiles",
+           "rule": "6 element sequences (0..2049 elements) x 9 claimed size hints (absent, exact, small, 1024, 1025, 10^5, usize::MAX) x prior contents shorter/equal/longer (incl. 3000 elements, the destination's own block tracked by the allocator) x two capacities, plus an element error at every position up to 12; in-place growth bounded by what the data or the capped hint needs (else at most 1024 elements beyond the capacity already there); serialization compared with the slice's and Vec's JSON and, through a recording serializer (announced length, emitted elements, one sequence, ended), with the slice's own Serialize for five storage states; elements with a drop ledger through fresh and in-place deserialization, 6 lengths x 6 hints x an error at every position x 3 prior lengths (every value created is destroyed exactly once); both profiles",
            "samples": samples[:6]}
     return {"violations": viol, "coverage": cov}
 
